@@ -7,6 +7,13 @@ function `_matches_query`) are interpreted by the framework's AST interpreter (e
 c28.py) over small finite domains; the SQLite store runs against a model connection whose
 schema is what the repo's own migrations produce and whose WHERE clauses are evaluated with SQL
 three-valued logic.  The oracle is the statement itself, written once in `spec_match`.
+
+R1 also decides that the filters of a query are a *conjunction under every list length* (`_ladder_queries`, instances
+`list-length+other`): a list filter of 1..4 values combined with each value of each other filter must select exactly what
+the statement selects, for `query` and for `delete`.  Necessary: "matching every given filter" has no exception for short
+lists, so a filter builder that answers from one filter alone for some length (single-id fast path returning before the
+other `HandlerQuery` fields are consulted) returns / deletes handlers the other filters exclude.  The only early exit the
+statement allows is "an empty list matches nothing".  Decided by evaluation, not by the shape of the returns.
 """
 
 from __future__ import annotations
@@ -26,7 +33,10 @@ EXPLANATION = (
     "matches a query iff for every list filter `<f>_in` that is not None the list is non-empty and contains the handler's `<f>`, and `is_idle` (if "
     "not None) equals `idle_since is not None`; the fields are enumerated from the `HandlerQuery` dataclass (an unknown field kind is exit 2). "
     "R1: for a population of 8 handlers and every query in the product {None, [], [values]}^4 x {None, True, False} plus single-filter queries with further value lists, `query` of each store "
-    "returns exactly the handlers `spec` selects; for every such query with at least one filter `delete` returns their number and removes "
+    "returns exactly the handlers `spec` selects; the filters are a conjunction whatever the length of a list: the same is demanded for every query that combines a list filter of 1, 2, 3 or 4 values "
+    "with each value (empty list, containing / not containing the handler's value, True/False) of each single other filter (instances `list-length+other`; 270 queries per store) — a builder that answers "
+    "from one filter alone for some list length (e.g. a single-id 'primary key' lookup that returns before the other HandlerQuery fields are consulted) drops filters the statement requires, "
+    "and the only permitted early exit is 'matches nothing'; for every such query with at least one filter `delete` returns their number and removes "
     "exactly them; for every sequence of at most 2 (thorough: 3) operations from {upsert, status update, delete by id, delete by status} both stores end "
     "with the handler set of a reference dictionary model (hence identical to each other). Behaviour of `delete` with no filter at all is only "
     "compared and reported as an observation. "
@@ -47,7 +57,7 @@ TRUSTED = [
     "pydantic stores/returns PersistentHandler fields unchanged (validators not modelled)",
 ]
 LEVEL_TEXT = "bounded exhaustive model check by AST interpretation (finite query domain; operation sequences up to a stated length)"
-LEVEL_NOTE = "a pass means the decided clauses hold on the enumerated domain; longer sequences, other value shapes and SQL engine details are not covered"
+LEVEL_NOTE = "a pass means the decided clauses hold on the enumerated domain; longer sequences, other value shapes (a special case for a list of 5+ values combined with another filter, or one that needs three filters to show) and SQL engine details are not covered"
 TECHNIQUE = "abstract interpretation of the store ASTs against a reference dictionary model; SQL WHERE clauses evaluated by a mini SQL engine"
 
 ABS = "llama_agents.server._store.abstract_workflow_store"
@@ -209,6 +219,45 @@ def _queries(h: Harness) -> list[dict]:
     return [dict(c) for c in itertools.product(*doms)] + [{**{f: None for f, _k, _a in h.fields}, **s} for s in singles]
 
 
+LADDER_SLOT = "list-length+other"
+LADDER_LENGTHS = (1, 2, 3, 4)
+LADDER_FLOOR = 270  # hand-confirmed on /repo: 4 list filters x 4 lengths x 20 other-filter values, 50 duplicates removed
+
+
+def _ladder_queries(h: Harness) -> list[dict]:
+    """Conjunction under every list length: for each list filter `f` a list of 1, 2, 3 and 4 values (values that handlers of the
+    population have; padded with an absent one when the population has fewer) combined with exactly one other filter `g`, `g` ranging
+    over every non-None value of its domain (the empty list, lists that contain / do not contain the handler's value, True/False).
+    A builder that treats `f` specially for some list length (a "primary key" fast path for one id, an `=` for one value, ...) must
+    still apply `g`; the product domain of `_queries` only has one list length per filter."""
+    present: dict[str, list] = {}
+    for f, kind, attr in h.fields:
+        if kind == "in":
+            vals: list = []
+            for p in POPULATION:
+                if p[attr] is not None and p[attr] not in vals:
+                    vals.append(p[attr])
+            present[f] = vals + ["zz"] * max(0, max(LADDER_LENGTHS) - len(vals))
+    others: dict[str, list] = {}
+    for g, kind, attr in h.fields:
+        others[g] = [v for v in VALUES[attr][0] + VALUES[attr][1] if v is not None] if kind == "in" else [True, False]
+    none = {f: None for f, _k, _a in h.fields}
+    out: list[dict] = []
+    seen: set[str] = set()
+    for f in present:
+        for n in LADDER_LENGTHS:
+            for g, gvals in others.items():
+                if g == f:
+                    continue
+                for gv in gvals:
+                    q = {**none, f: present[f][:n], g: gv}
+                    key = repr(sorted(q.items(), key=lambda kv: kv[0]))
+                    if key not in seen:
+                        seen.add(key)
+                        out.append(q)
+    return out
+
+
 def _slot(q: dict) -> str:
     used = [f for f, v in q.items() if v is not None]
     if not used:
@@ -219,11 +268,14 @@ def _slot(q: dict) -> str:
 # ---------------------------------------------------------------------------- R1
 
 
-def rule_r1(chk: Any, h: Harness, fixture: bool = False) -> None:
+def rule_r1(chk: Any, h: Harness, fixture: bool = False, ladder: bool = True) -> None:
     repo = chk.repo
     queries = _queries(h)
     if fixture:  # the planted store only has to trip the rule: single-filter queries are enough
         queries = [q for q in queries if sum(v is not None for v in q.values()) == 1]
+    ladder_qs = _ladder_queries(h) if ladder else []
+    slot_of = {id(q): LADDER_SLOT for q in ladder_qs}
+    queries = queries + ladder_qs
     anchors = {k: (repo.cls(h.cfg.cls(k))[0], repo.methods(h.cfg.cls(k))) for k in h.cfg.kinds}
     for kind in h.cfg.kinds:
         for need in ("query", "delete", "update"):
@@ -250,7 +302,7 @@ def rule_r1(chk: Any, h: Harness, fixture: bool = False) -> None:
         bad_d: dict[str, str] = {}
         seen_slots: set[str] = set()
         for q in queries:
-            slot = _slot(q)
+            slot = slot_of.get(id(q)) or _slot(q)
             seen_slots.add(slot)
             want = sorted(p["handler_id"] for p in POPULATION if spec_match(h.fields, p, q))
             qrec = h.query(**q)
@@ -280,11 +332,17 @@ def rule_r1(chk: Any, h: Harness, fixture: bool = False) -> None:
             elif (n != len(want) or left != keep) and slot not in bad_d:
                 bad_d[slot] = f"delete({_fmt(q)}) returned {n} and left {left}; the statement removes exactly {want} (count {len(want)})"
         for slot in sorted(seen_slots - {"no-filter"}):
-            chk.ob("C24.R1", f"{kind} store: `query` returns exactly the handlers matching every given filter ({slot}; all {len(queries)} queries of the domain x 8 handlers)",
+            what = slot
+            if slot == LADDER_SLOT:
+                what = (f"{slot}: the filters are a conjunction whatever the length of a list — a list filter of {', '.join(map(str, LADDER_LENGTHS))} values combined with each value "
+                        f"of each other filter, {len(ladder_qs)} queries; a fast path for some list length must not drop the other filters or their 'empty list matches nothing'")
+            chk.ob("C24.R1", f"{kind} store: `query` returns exactly the handlers matching every given filter ({what}; all {len(queries)} queries of the domain x 8 handlers)",
                    slot not in bad_q, m=m, node=meths["query"], fn=meths["query"], instance=f"{kind}:query:{slot}", reason=bad_q.get(slot, ""))
             chk.ob("C24.R1", f"{kind} store: `delete` with at least one filter removes exactly the matching handlers and returns their number ({slot})",
                    slot not in bad_d, m=m, node=meths["delete"], fn=meths["delete"], instance=f"{kind}:delete:{slot}", reason=bad_d.get(slot, ""))
-    chk.floor("C24.R1", "query/delete evaluations against the oracle (2 stores)", total, len(h.cfg.kinds) * 2 * 250 if not (broken or fixture) else 0)
+    chk.floor("C24.R1", "query/delete evaluations against the oracle (2 stores)", total, len(h.cfg.kinds) * 2 * (250 + (LADDER_FLOOR if ladder else 0)) if not (broken or fixture) else 0)
+    if ladder:
+        chk.floor("C24.R1", "queries combining a list filter of 1..4 values with one other filter (per store, query and delete each)", len(ladder_qs), LADDER_FLOOR)
     chk.floor("C24.R1", "HandlerQuery filter fields enumerated from the dataclass", len(h.fields), 5)
     if not broken and len(h.cfg.kinds) == 2 and nolist.get("memory") != nolist.get("sqlite"):
         chk.observe(f"filter-less HandlerQuery(): memory store {nolist.get('memory')} vs SQLite store {nolist.get('sqlite')} over 8 handlers — `delete(HandlerQuery())` "
@@ -599,6 +657,9 @@ def run(chk: Any) -> None:
 
 FIXTURE = "fixtures/c24/planted_store.py"
 FIXTURE_MOD = "verif_fixture_c24.planted_store"
+FIXTURE_FAST = "fixtures/c24/planted_fast_path.py"
+FIXTURE_FAST_MOD = "verif_fixture_c24.planted_fast_path"
+FIXTURE_FAST_NEED = {f"memory:query:{LADDER_SLOT}", f"memory:delete:{LADDER_SLOT}"}
 FIXTURE_NEED = {"C24.R1": "memory:query:is_idle", "C24.R3": "non-terminal-kept", "C24.R3 ": "oldest-first", "C24.R4": "memory:status-update-fields"}
 
 
@@ -620,7 +681,7 @@ def planted_fixture(chk: Any) -> None:
     repo.by_rel[fm.rel] = fm
     scratch = Check("C24", repo, "quick", 0, quiet=True, write=False)
     h = _guard("C24", "planted fixture", lambda: Harness(repo, Cfg(f"{FIXTURE_MOD}:PlantedStore", None)))
-    rule_r1(scratch, h, fixture=True)
+    rule_r1(scratch, h, fixture=True, ladder=False)
     rule_r2_r3(scratch, h, 3, fixture=True)
     rule_r4(scratch, h)
     got = {(o.rule, o.key.rsplit("|", 1)[-1]) for o in scratch.violations()}
@@ -628,6 +689,26 @@ def planted_fixture(chk: Any) -> None:
     if missing:
         raise AnchorError(f"C24: planted defects not reported on {FIXTURE}: {missing}; the rules are blind")
     chk.floor("C24.R1", "planted fixture defects reported (R1 is_idle, R3 non-terminal eviction, R3 newest-first eviction, R4 idle_since=None)", len(FIXTURE_NEED), 4)
+    # the conjunction ladder: a store whose only defect is a fast path for one list length must be reported by the ladder instances and by nothing else
+    path2 = VERIF / FIXTURE_FAST
+    if not path2.is_file():
+        raise AnchorError(f"C24: fixture {path2} is missing")
+    src2 = path2.read_text()
+    tree2 = ast.parse(src2, filename=str(path2))
+    _set_parents(tree2)
+    repo2 = chk.repo.with_overlay({})
+    fm2 = Module(FIXTURE_FAST_MOD, path2, f"verif-fixture/{FIXTURE_FAST}", src2, tree2)
+    repo2._collect(fm2)
+    repo2.modules[FIXTURE_FAST_MOD] = fm2
+    repo2.by_rel[fm2.rel] = fm2
+    scratch2 = Check("C24", repo2, "quick", 0, quiet=True, write=False)
+    h2 = _guard("C24", "planted fast-path fixture", lambda: Harness(repo2, Cfg(f"{FIXTURE_FAST_MOD}:PlantedFastPathStore", None)))
+    rule_r1(scratch2, h2, fixture=True, ladder=True)
+    got2 = {o.key.rsplit("|", 1)[-1] for o in scratch2.violations() if o.rule == "C24.R1"}
+    if got2 != FIXTURE_FAST_NEED:
+        raise AnchorError(f"C24: on {FIXTURE_FAST} (only defect: a list of three values answers alone) R1 reported {sorted(got2)}, expected exactly {sorted(FIXTURE_FAST_NEED)}; "
+                          "the conjunction ladder is blind or imprecise")
+    chk.floor("C24.R1", "planted fast-path store reported by the list-length ladder only (query and delete)", len(got2), 2)
 
 
 _PM = "packages/llama-agents-server/src/llama_agents/server/_store/memory_workflow_store.py"
@@ -656,6 +737,28 @@ TWINS: list[Twin] = [
     Twin("memory: empty handler_id list treated as no filter", _PM, "        if len(query.handler_id_in) == 0:\n            return False\n        if handler.handler_id not in query.handler_id_in:", "        if query.handler_id_in and handler.handler_id not in query.handler_id_in:", "C24.R1"),
     Twin("sqlite: empty status list treated as no filter", _PS, "            if len(query.status_in) == 0:\n                return None\n            add_in_clause(\"status\", query.status_in)", "            if len(query.status_in) > 0:\n                add_in_clause(\"status\", query.status_in)", "C24.R1"),
     Twin("memory: delete keeps what it should remove and removes the rest", _PM, "            for handler_id, handler in list(self.handlers.items())\n            if _matches_query(handler, query)", "            for handler_id, handler in list(self.handlers.items())\n            if not _matches_query(handler, query)", "C24.R1"),
+    # ---- R1 conjunction ladder (seed S133): a fast path for one list length must not drop the other filters
+    Twin("sqlite: a single id returns `handler_id = ?` alone (workflow clause collected so far and every later filter dropped; query and delete)", _PS,
+         '            add_in_clause("handler_id", query.handler_id_in)\n',
+         '            if len(query.handler_id_in) == 1:\n                return ["handler_id = ?"], list(query.handler_id_in)\n            add_in_clause("handler_id", query.handler_id_in)\n', "C24.R1"),
+    Twin("sqlite: a single status returns early with the clauses collected so far (only is_idle is dropped)", _PS,
+         '            add_in_clause("status", query.status_in)\n',
+         '            if len(query.status_in) == 1:\n                return clauses + ["status = ?"], params + list(query.status_in)\n            add_in_clause("status", query.status_in)\n', "C24.R1"),
+    Twin("sqlite: three run ids answer alone (length not in the product domain)", _PS,
+         '            add_in_clause("run_id", query.run_id_in)\n',
+         '            if len(query.run_id_in) == 3:\n                return ["run_id IN (?,?,?)"], list(query.run_id_in)\n            add_in_clause("run_id", query.run_id_in)\n', "C24.R1"),
+    Twin("memory: a single id is answered by identity before the other filters are looked at", _PM,
+         "        if handler.handler_id not in query.handler_id_in:\n            return False\n",
+         "        if len(query.handler_id_in) == 1:\n            return handler.handler_id == query.handler_id_in[0]\n        if handler.handler_id not in query.handler_id_in:\n            return False\n", "C24.R1"),
+    Twin("benign: a single id compared with `=` instead of IN, still one clause of the conjunction", _PS,
+         '            add_in_clause("handler_id", query.handler_id_in)\n',
+         '            if len(query.handler_id_in) == 1:\n                clauses.append("handler_id = ?")\n                params.append(query.handler_id_in[0])\n            else:\n                add_in_clause("handler_id", query.handler_id_in)\n', None),
+    Twin("benign: memory single id compared by equality, falls through to the other filters", _PM,
+         "        if handler.handler_id not in query.handler_id_in:\n            return False\n",
+         "        if len(query.handler_id_in) == 1:\n            if handler.handler_id != query.handler_id_in[0]:\n                return False\n        elif handler.handler_id not in query.handler_id_in:\n            return False\n", None),
+    Twin("benign: early return only for 'matches nothing' — all empty-list tests hoisted in front of the clause building", _PS,
+         "        if query.workflow_name_in is not None:\n            if len(query.workflow_name_in) == 0:\n                return None\n",
+         "        for given in (query.workflow_name_in, query.handler_id_in, query.run_id_in, query.status_in):\n            if given is not None and len(given) == 0:\n                return None\n        if query.workflow_name_in is not None:\n", None),
     # ---- R2 breaking (new shapes: the unchanged tree already fails repeat / reopen / delete)
     Twin("cap comparison off by one", _PM, "while len(self._terminal_queue) > self.max_completed:", "while len(self._terminal_queue) >= self.max_completed:", "C24.R2"),
     Twin("every upsert is queued as a completion", _PM, "        if is_terminal_status(handler.status):\n            self._terminal_queue[handler.handler_id] = None\n            self._evict_oldest_completed()", "        self._terminal_queue[handler.handler_id] = None\n        self._evict_oldest_completed()", "C24.R2"),
